@@ -356,7 +356,9 @@ def RenderProgram(prog, engine_line='@Engine("sqlite");'):
           for o in p['order'])))
     if p.get('limit', -1) >= 0 and not p.get('limit_as_denotation'):
       lines.append('@Limit(%s, %d);' % (p['name'], p['limit']))
-  for mk in prog.get('makes', []):
+  makes = prog.get('makes', [])
+  for j in (prog.get('makes_text_order') or range(len(makes))):
+    mk = makes[j]
     lines.append('%s := %s(%s);' % (mk['name'], mk['functor'], ', '.join(
         '%s: %s' % (a['k'], a['v']) for a in mk['args'])))
   order = prog.get('stmt_order') or [
